@@ -43,6 +43,11 @@ def generate(tier, seed):
                 c['aps'][jj] = [a * shift for a in c['aps'][jj]]
                 c['aps'][jj][0] = rmin if jj == j else c['aps'][jj][0]
             c['kind'] = 'on_edge'
+            if k % 24 == 6:       # the aperture table stored in single precision, as in the published packages (all values are single-precision numbers)
+                import numpy as np
+                new = [sorted(set(float(np.float32(a)) for a in row)) for row in c['aps']]
+                if all(len(a) == len(b) for a, b in zip(new, c['aps'])):
+                    c['aps'], c['ap_dtype'] = new, 'float32'
         cases.append(c)
     return cases
 
